@@ -543,12 +543,20 @@ class ClockScheduler():
     def reset(self):
         self.queue.clear()
 
+    def update(self, clock):
+        # Pending tasks of a TempoClock are scheduled in beats, their
+        # time in seconds changes when the clock's tempo or beats change.
+        for _, clock_task in list(self.queue):
+            if clock_task.clock is clock:
+                self.queue.add(clock.beats2secs(clock_task.beats), clock_task)
+
 
 class ClockTask():
     def __init__(self, beats, clock, task, scheduler):
         self.clock = clock
         self.task = task
         self.scheduler = scheduler
+        self.beats = beats
         scheduler.add(clock.beats2secs(beats), self)
 
     def _wakeup(self, time):
@@ -557,7 +565,8 @@ class ClockTask():
             beats = self.clock.secs2beats(time)
             delta = self.task.__awake__(self.clock)
             if isinstance(delta, (int, float)) and not isinstance(delta, bool):
-                self.scheduler.add(self.clock.beats2secs(beats + delta), self)
+                self.beats = beats + delta
+                self.scheduler.add(self.clock.beats2secs(self.beats), self)
         except stm.StopStream:
             pass
         except Exception:
@@ -962,6 +971,7 @@ class TempoClock(Clock, metaclass=MetaTempoClock):
         # en tempo_
         mdl.NotificationCenter.notify(self, 'tempo')
         if self.mode == _libsc3.main.NRT_MODE:
+            _libsc3.main._clock_scheduler.update(self)
             return
         else:
             with self._sched_cond:
@@ -991,6 +1001,7 @@ class TempoClock(Clock, metaclass=MetaTempoClock):
         # etempo_
         mdl.NotificationCenter.notify(self, 'tempo')
         if self.mode == _libsc3.main.NRT_MODE:
+            _libsc3.main._clock_scheduler.update(self)
             return
         else:
             with self._sched_cond:
@@ -1049,6 +1060,7 @@ class TempoClock(Clock, metaclass=MetaTempoClock):
         self._base_beats = value
         self._beat_dur = 1.0 / self._tempo
         if self.mode == _libsc3.main.NRT_MODE:
+            _libsc3.main._clock_scheduler.update(self)
             return
         else:
             with self._sched_cond:
